@@ -454,6 +454,24 @@ func genC12(t *rapid.T) c12Case {
 			bulk = true
 			push("many-foods", []vRec{{Head: vFmtDay(d, ""), HL: vGenHeadLayout(rt, lo, "hl"), Lines: lines}}, []int{d})
 		},
+		"same-date-run": func(rt *rapid.T) {
+			// many records under one date (an import that writes one record per meal), more rows than any output buffer holds
+			if rapid.IntRange(0, 3).Draw(rt, "rare") != 0 {
+				rt.Skip("drawn rarely")
+			}
+			d := nextDay
+			nextDay++
+			n := []int{120, 200, 400}[rapid.IntRange(0, 2).Draw(rt, "nrecs")]
+			plainL := vLayout{Indent: "  ", Sep: ": ", EOL: "\n"}
+			var recs []vRec
+			var days []int
+			for k := 0; k < n; k++ {
+				nm := foods[(k*7+len(allDays))%len(foods)]
+				recs = append(recs, vRec{Head: vFmtDay(d, ""), HL: vLayout{EOL: "\n"}, Lines: []vLine{{Kind: vkEntry, Name: nm, Num: fmt.Sprint(k%9 + 1), L: plainL}, {Kind: vkEntry, Name: c.X, Num: "1", L: plainL}}})
+				days = append(days, d)
+			}
+			push("same-date-run", recs, days)
+		},
 		"same-menu": func(rt *rapid.T) {
 			// the same entries as the day before (names, quantities, order), under the next date
 			if len(allDays) == 0 || len(allDays[len(allDays)-1].Lines) == 0 {
